@@ -72,6 +72,13 @@ func TestVerifC15Decorator(t *testing.T) {
 	vs.Run(t, "C15", func(c *vs.Case) error { return vw.PropC15(c, decoratorFactory, "decorator") })
 }
 
+func TestVerifC14LiveDecorator(t *testing.T) {
+	vs.Run(t, "C14", func(c *vs.Case) error {
+		env := vw.NewC20Env()
+		return vw.PropC14Live(c, "decorator", env, newC20DecoratorDriver(env))
+	})
+}
+
 func TestVerifC15LiveDecorator(t *testing.T) {
 	vs.Run(t, "C15", func(c *vs.Case) error {
 		env := vw.NewC20Env()
